@@ -342,16 +342,23 @@ def run_coll_history_o2m(h):
         con = db.get_connection()
         g = db.G.get(id=1); g_other = db.G.get(id=2)
         if h['preload'] == 'full': list(g.students)
-        sobj = {x.id - 1: x for x in db.S.select()[:]}
+        lazy_items = bool(h.get('lazy_items'))
+        sobj = {} if lazy_items else {x.id - 1: x for x in db.S.select()[:]}
         attr = db.G.students
+        def item(i):
+            """student i if its `group` attribute is loaded in this session (identity map only, no SQL), else None"""
+            x = sobj.get(i) or db._get_cache().indexes[db.S._pk_attrs_].get(i + 1)
+            return x if x is not None and x._vals_ is not None and db.S.group in x._vals_ else None
         def snap():
             sd = g._vals_.get(attr)
             rows = sorted(r[0] - 1 for r in con.execute('select id from S where "group" = 1').fetchall())
-            if sd is None: return rows, None
+            loaded = sorted(x.id - 1 for x in db._get_cache().indexes[db.S._pk_attrs_].values() if x._vals_ is not None and db.S.group in x._vals_)
+            if sd is None: return rows, None, loaded
             ix = lambda xs: sorted(x.id - 1 for x in xs)
             return rows, {'items': ix(sd), 'full': bool(sd.is_fully_loaded), 'added': ix(sd.added or ()), 'removed': ix(sd.removed or ()),
-                          'absent': None if sd.absent is None else ix(sd.absent), 'count': sd.count}
+                          'absent': None if sd.absent is None else ix(sd.absent), 'count': sd.count}, loaded
         for op in h['ops']:
+            if op[0] in ('contains', 'add', 'remove', 'add_rev', 'remove_rev') and item(op[1]) is None: continue   # operand not loaded yet
             before = snap()
             try:
                 k = op[0]
@@ -359,11 +366,14 @@ def run_coll_history_o2m(h):
                 elif k == 'iter': r = sorted(x.id - 1 for x in g.students)
                 elif k == 'count': r = g.students.count()
                 elif k == 'is_empty': r = g.students.is_empty()
-                elif k == 'contains': r = sobj[op[1]] in g.students
-                elif k == 'add': r = g.students.add(sobj[op[1]])
-                elif k == 'remove': r = g.students.remove(sobj[op[1]])
-                elif k == 'add_rev': sobj[op[1]].group = g; r = None
-                elif k == 'remove_rev': sobj[op[1]].group = None; r = None
+                elif k == 'load_item':
+                    x = db.S.get(id=op[1] + 1); r = None
+                    if x is not None: sobj[op[1]] = x
+                elif k == 'contains': r = item(op[1]) in g.students
+                elif k == 'add': r = g.students.add(item(op[1]))
+                elif k == 'remove': r = g.students.remove(item(op[1]))
+                elif k == 'add_rev': item(op[1]).group = g; r = None
+                elif k == 'remove_rev': item(op[1]).group = None; r = None
                 elif k == 'flush': r = orm.flush()
                 elif k == 'other_len': r = len(g_other.students)
                 else: raise ValueError(k)
